@@ -724,6 +724,8 @@ func (e *Engine) Obligations(f *ssa.Function) []*Obl {
 						o.Why = "operand is a fresh interface of the asserted type"
 					} else if a.in[b] == nil {
 						o.Why = "unreachable"
+					} else if e.poolAssertOK(x) {
+						o.Why = "every object of this sync.Pool has the asserted type (New and every Put)"
 					} else {
 						o.Status, o.Why = Failed, "single-result type assertion on "+a.valName(x.X)
 					}
